@@ -24,7 +24,7 @@ def scan(casefile, limit=40):
         except Exception as ex:
             msg = "oracle could not parse the case: %r" % ex
         if msg is not None:
-            if len(fails) < limit:
+            if keep_failure(fails, msg):
                 fails.append({"line": lineno, "op": op, "args": args[:3] if op == "c10" else args[:12], "impl": res[:12],
                               "why": msg, "detail": " ".join(res[1:])[:300] if op == "c10" else ""})
         elif op == "c10" and len(samples) < 10 and n % 131 == 0:
